@@ -39,7 +39,8 @@ Section V1.
     order : list N;             (* subscription ids in creation order *)
     handles : list N;           (* OutputPort::subscriptions (pruned on subscribe) *)
     actors : N -> actor;
-    log : list N }.             (* ghost: every accepted publish *)
+    log : list N;               (* ghost: every accepted publish *)
+    closed : bool }.            (* every handle of the port has been dropped (Sender gone) *)
 
   Inductive label :=
   | LPublish (m : N)              (* OutputPort::send *)
@@ -48,10 +49,12 @@ Section V1.
   | LCast (s : N)                 (* task s: converter(msg) and receiver.cast *)
   | LHandle (a s : N)             (* actor a: handler takes the mailbox head, which came through s *)
   | LStop (a : N)                 (* actor a terminates (stop, kill, handler or pre_start error) *)
-  | LStart (a : N).               (* actor a finishes pre_start/post_start: Starting -> Running *)
+  | LStart (a : N)                (* actor a finishes pre_start/post_start: Starting -> Running *)
+  | LClose                        (* the port (every handle of it) is dropped *)
+  | LEnd (s : N).                 (* task s: recv returns Closed, the task ends *)
 
   Definition init : state :=
-    mkSt 0 [] 0 (fun _ => None) [] [] (fun _ => actor0) [].
+    mkSt 0 [] 0 (fun _ => None) [] [] (fun _ => actor0) [] false.
 
   Definition push (r : list N) (m : N) : list N := lastn cap (r ++ [m]).
 
@@ -63,20 +66,22 @@ Section V1.
 
   Definition set_task (st : state) (s : N) (sb : sub) : state :=
     mkSt (tail st) (ring st) (rxcnt st) (updf (tasks st) s (Some sb)) (order st)
-         (handles st) (actors st) (log st).
+         (handles st) (actors st) (log st) (closed st).
 
   Definition set_actor (st : state) (a : N) (x : actor) : state :=
     mkSt (tail st) (ring st) (rxcnt st) (tasks st) (order st)
-         (handles st) (updf (actors st) a x) (log st).
+         (handles st) (updf (actors st) a x) (log st) (closed st).
 
   Definition step (st : state) (l : label) : option state :=
     match l with
     | LPublish m =>
         (* if self.tx.receiver_count() > 0 { let _ = self.tx.send(Some(msg)); } *)
-        if Nat.eqb (rxcnt st) 0 then Some st
+        if closed st then None             (* no handle left to call send on *)
+        else if Nat.eqb (rxcnt st) 0 then Some st
         else Some (mkSt (S (tail st)) (push (ring st) m) (rxcnt st) (tasks st) (order st)
-                        (handles st) (actors st) (log st ++ [m]))
+                        (handles st) (actors st) (log st ++ [m]) (closed st))
     | LSubscribe s a c =>
+        if closed st then None else
         match tasks st s with
         | Some _ => None
         | None =>
@@ -85,7 +90,7 @@ Section V1.
                        (updf (tasks st) s (Some (mkSub a c (tail st) PRecv)))
                        (order st ++ [s])
                        (filter (fun h => negb (is_dead st h)) (handles st) ++ [s])
-                       (actors st) (log st))
+                       (actors st) (log st) (closed st))
         end
     | LRecv s =>
         match tasks st s with
@@ -121,7 +126,7 @@ Section V1.
                     else (* cast failed: return; the Receiver is dropped *)
                       Some (mkSt (tail st) (ring st) (pred (rxcnt st))
                                  (updf (tasks st) s (Some (mkSub (s_actor sb) (s_conv sb) (s_cursor sb) PDone)))
-                                 (order st) (handles st) (actors st) (log st))
+                                 (order st) (handles st) (actors st) (log st) (closed st))
                 end
             | _ => None
             end
@@ -145,6 +150,27 @@ Section V1.
         let x := actors st a in
         if a_alive x && negb (a_started x)
         then Some (set_actor st a (mkActor true true (a_mbox x) (a_got x))) else None
+    | LClose =>
+        (* the last handle of the port is dropped: the broadcast Sender goes away *)
+        if closed st then None
+        else Some (mkSt (tail st) (ring st) (rxcnt st) (tasks st) (order st)
+                        (handles st) (actors st) (log st) true)
+    | LEnd s =>
+        (* task s: port.recv() returns Err(Closed) — only once everything buffered has been
+           taken (tokio reports Closed only at next == tail); the task returns *)
+        match tasks st s with
+        | Some sb =>
+            match s_pc sb with
+            | PRecv =>
+                if closed st && Nat.eqb (tail st - s_cursor sb) 0
+                then Some (mkSt (tail st) (ring st) (pred (rxcnt st))
+                                (updf (tasks st) s (Some (mkSub (s_actor sb) (s_conv sb) (s_cursor sb) PDone)))
+                                (order st) (handles st) (actors st) (log st) (closed st))
+                else None
+            | _ => None
+            end
+        | None => None
+        end
     end.
 
   Fixpoint run (st : state) (ls : list label) : option state :=
@@ -206,6 +232,8 @@ Section V1.
     | LHandle _ s' => if N.eqb s' s then [AHandle] else []
     | LStop a' => if N.eqb a' a then [AStop] else []
     | LStart _ => []
+    | LClose => []
+    | LEnd s' => if N.eqb s' s then [ADrop] else []
     end.
   Definition projs (s a : N) (ls : list label) : list alabel := flat_map (proj s a) ls.
 
@@ -228,3 +256,5 @@ Arguments LCast {C}.
 Arguments LHandle {C}.
 Arguments LStop {C}.
 Arguments LStart {C}.
+Arguments LClose {C}.
+Arguments LEnd {C}.
